@@ -36,6 +36,12 @@ def build(e, kind, variant):
     elif kind == "pull":
         db.ArchiveFileCopy.update(wants_file="Y").where(db.ArchiveFileCopy.wants_file == "N").execute()
         db.ArchiveFileCopy.update(has_file="Y").where(db.ArchiveFileCopy.has_file == "M").execute()
+        if variant >= 6:
+            # the destination held this file once: an old row recorded "removed" (has N, wants N) is still there
+            db.ArchiveFileCopy.create(file=o["f"], node=o["n2"], has_file="N", wants_file="N", ready=False)
+        if variant >= 8:
+            # ... and the source holds the only other copy (nothing may be deleted on the way to recovery)
+            db.ArchiveFileCopy.delete().where(db.ArchiveFileCopy.file == o["f"], db.ArchiveFileCopy.node << [o["n3"].id, o["n4"].id]).execute()
     verif_idext.MODE[:] = ["first", 1]
     return w, o
 
@@ -198,7 +204,7 @@ def sweep(ctx, e, kind, variant, route):
 
 def run(ctx):
     ok = common.proof_stage(ctx, MODULE)
-    scen = [("pull", 0, "none"), ("pull", 1, "rsync-only"), ("pull", 1, "none"), ("delete", 0, "none"), ("check", 0, "none"), ("import", 0, "none")]
+    scen = [("pull", 0, "none"), ("pull", 1, "rsync-only"), ("pull", 1, "none"), ("pull", 6, "none"), ("pull", 7, "rsync-only"), ("pull", 8, "none"), ("pull", 9, "rsync-only"), ("delete", 0, "none"), ("check", 0, "none"), ("import", 0, "none")]
     if not ctx.quick():
         scen += [("pull", v, r) for v in (2, 3, 4, 5) for r in ("none", "rsync-only")] + [("delete", 1, "none"), ("import", 1, "none")]
     with envmod.CliEnv() as e:
